@@ -10,3 +10,16 @@ impl<'a> Lexer<&'a str> {
         n
     }
 }
+#[cfg(kani)]
+impl<'a> Lexer<&'a str> {
+    /// lex one token of `s`: (was there a token?, bytes left, errors recorded)
+    pub(crate) fn verif_token(s: &'a str) -> (bool, usize, usize) {
+        let mut l = Lexer::new(s);
+        let t = l.token();
+        let some = t.is_some();
+        core::mem::forget(t);
+        let r = (some, l.i.len(), l.e.len());
+        core::mem::forget(l);
+        r
+    }
+}
